@@ -146,7 +146,7 @@ def body_attrs(cube, **kw):
         if do:
             assets[1].dP = [None, 1.0, 0.5][do]     # O.dP defaults to 0, G1.dP to 1: 1.0 equals the other type's default
         if xa:
-            assets[0].extras = {'pos': {'x': 1, 'y': 2.5}, 'tag': 'n'}
+            assets[0].extras = {'pos': {'x': 1, 'y': 2.5}, 'tag': 'n', 'zero': 0, 'empty': '', 'off': False}
         links = []
         if l0:
             links.append(mb.add_link(m, lcf, 'L', 'ps', [assets[0], assets[2]], 'os', [assets[1]]))
